@@ -128,6 +128,35 @@ def runStep {σ : Type} (D : Decoder σ α) (cfg : Cfg) (fuel : Nat) (st : Sched
       else st'
     .ok (f, idx, st''.playing, st'')
 
+/-- how a decoder thread ends, as seen from the sound and its handle -/
+structure ThreadEnd (α : Type) where
+  /-- the frames the thread put in the ring buffer, in order, with their transport positions
+      (what becomes audible is a prefix of these) -/
+  pushed : List (Frame α × Nat)
+  /-- `some e`: `e` was pushed to the error ring (`handle.pop_error()`) and `encountered_error` set —
+      the sound is marked Stopped by its next `process`; `none`: `reached_end` — the sound plays
+      the buffer out and finishes -/
+  error : Option Err
+
+/-- mirrors: decode_scheduler.rs::DecodeScheduler::start, streaming/sound.rs::StreamingSound::process
+    The decoder thread: `run` until `End`; an `Err` is pushed to the error producer and
+    `shared.encountered_error` is set; `process` then does `mark_as_stopped` (before playing
+    anything that is still buffered), so the thread's next `run` sees `Stopped` and returns `End`.
+    `steps` bounds the iterations of the Rust `loop` (the loop itself is unbounded: exhaustion is
+    reported as `hang`, as is a `frame_at_index` that never returns); a panic kills the thread
+    and nothing ever stops the sound.  (`Wait` — ring buffer of 16 384 frames full — is not
+    modelled: the consumer is assumed live.) -/
+def runThread {σ : Type} (D : Decoder σ α) (cfg : Cfg) (fuel : Nat) :
+    Nat → Sched σ α → List (Frame α × Nat) → Except Err (ThreadEnd α)
+  | 0, _, _ => .error .hang
+  | steps + 1, st, acc =>
+    match runStep D cfg fuel st with
+    | .error e =>
+      if e = .hang ∨ e = .panic then .error e else .ok ⟨acc.reverse, some e⟩
+    | .ok (f, idx, go, st') =>
+      if go then runThread D cfg fuel steps st' ((f, idx) :: acc)
+      else .ok ⟨((f, idx) :: acc).reverse, none⟩
+
 end Dec
 
 /-! ## Symphonia's WAV reader + PCM codec as a `Decoder` (SymphoniaDecoder) -/
